@@ -1,7 +1,12 @@
 mod enc;
+mod alloc_count;
+mod elfbuild;
 mod gen;
+mod gen2;
+mod gen3;
 mod oracle;
 mod oracle2;
+mod oracle3;
 mod prng;
 mod run;
 mod show;
@@ -76,6 +81,13 @@ fn main() {
                 "utf8" => gen::gen_utf8(&mut rng, n, thorough),
                 "ident" => gen::gen_ident(&mut rng, n, thorough),
                 "acc" => gen::gen_acc(&mut rng, n, thorough),
+                "notes" => gen2::gen_notes(&mut rng, n, thorough),
+                "sysv" => gen2::gen_hash("sysv", &mut rng, n, thorough),
+                "gnu" => gen2::gen_hash("gnu", &mut rng, n, thorough),
+                "symver" => gen2::gen_symver(&mut rng, n, thorough),
+                "file" => gen3::gen_file(&mut rng, n, thorough),
+                "bigfile" => gen3::gen_bigfile(&mut rng, n, thorough),
+                "prefix" => gen3::gen_prefix(&mut rng, n, thorough),
                 _ => {
                     eprintln!("unknown stream {}", stream);
                     std::process::exit(2);
